@@ -29,8 +29,43 @@ fn peer(i: u8) -> PeerId {
 // C20
 // ---------------------------------------------------------------------------------------------
 
+/// A crowd of senders that are not on the list, refused concurrently through clones: whatever the
+/// layer keeps about the requests it refuses is shared by its clones and grows with the number of
+/// distinct senders. Every refusal must come back (a deadlock is reported by Miri), with NotFound.
+fn c20_crowd(case: u64) {
+    use anemo_tower::auth::{AllowedPeers, RequireAuthorizationLayer};
+    let threads = 2 + (case % 2) as u32;
+    let per_thread = 180u32;
+    let inner = tower::service_fn(move |_req: Request<Bytes>| async move { Ok::<_, std::convert::Infallible>(Response::new(Bytes::from_static(b"served"))) });
+    let svc = RequireAuthorizationLayer::new(AllowedPeers::new([peer(1), peer(2)])).layer(inner);
+    let mut hs = Vec::new();
+    for t in 0..threads {
+        let svc = svc.clone();
+        hs.push(std::thread::spawn(move || {
+            for k in 0..per_thread {
+                let mut id = [0xD0u8; 32];
+                id[..4].copy_from_slice(&(t * 100_000 + k).to_be_bytes());
+                // (a sender that comes back now and then, and a listed one in between)
+                let sender = if k % 17 == 5 { peer(1) } else if k % 13 == 7 { PeerId([0xD1; 32]) } else { PeerId(id) };
+                let req = Request::new(Bytes::new()).with_extension(sender);
+                let resp = futures::executor::block_on(svc.clone().oneshot(req)).unwrap();
+                let want = if sender == peer(1) { StatusCode::Success } else { StatusCode::NotFound };
+                if resp.status() != want {
+                    violation("allow-list-verdict-wrong", format!("request {k} of thread {t} (one of a crowd of unlisted senders) got {:?}, expected {want:?}", resp.status()));
+                }
+            }
+        }));
+    }
+    for h in hs {
+        h.join().unwrap();
+    }
+}
+
 fn c20(case: u64) {
     use anemo_tower::auth::{AllowedPeers, RequireAuthorizationLayer};
+    if case >= 36 {
+        return c20_crowd(case);
+    }
     let list_len = [1u8, 3, 40][(case % 3) as usize];
     let threads = 2 + (case / 3 % 3) as u8; // 2..4
     let served: Arc<Mutex<Vec<u64>>> = Default::default();
